@@ -65,6 +65,21 @@ var tags = []string{"latest", "v1", "list"}
 
 var errSource = errors.New("the content source failed")
 
+// failsWithLast delivers data and reports err together with its last bytes.
+type failsWithLast struct {
+	data []byte
+	err  error
+}
+
+func (r *failsWithLast) Read(p []byte) (int, error) {
+	n := copy(p, r.data)
+	r.data = r.data[n:]
+	if len(r.data) == 0 {
+		return n, r.err
+	}
+	return n, nil
+}
+
 func run(s Script, v *vt.V) {
 	ctx := context.Background()
 	base := ocimem.New()
@@ -166,12 +181,18 @@ func run(s Script, v *vt.V) {
 				case 7:
 					// the content source delivers everything and fails instead of ending
 					content = io.MultiReader(bytes.NewReader(data), iotest.ErrReader(errSource))
+				case 8:
+					// the same with the error truncated sources (archives, HTTP bodies) fail with
+					content = io.MultiReader(bytes.NewReader(data), iotest.ErrReader(io.ErrUnexpectedEOF))
+				case 9:
+					// the failure arrives together with the last bytes
+					content = &failsWithLast{data: data, err: []error{io.ErrUnexpectedEOF, errSource}[len(st.Parts)%2]}
 				}
 				_, perr = reg.PushBlob(ctx, repo, decl, content)
-				if st.Reader == 6 || st.Reader == 7 {
+				if st.Reader >= 6 {
 					v.Class("push:failing-reader")
 					if perr == nil {
-						fail(i, st, "failing-reader-accepted", "PushBlob (declared %v/%d) reported success although its content reader failed (after %d bytes)", decl.Digest, decl.Size, map[int]int{6: 0, 7: len(data)}[st.Reader])
+						fail(i, st, "failing-reader-accepted", "PushBlob (declared %v/%d) reported success although its content reader failed (after %d bytes)", decl.Digest, decl.Size, map[int]int{6: 0, 7: len(data), 8: len(data), 9: len(data)}[st.Reader])
 						return
 					}
 					continue
@@ -625,7 +646,7 @@ func genScript(t *rapid.T) Script {
 			}
 			switch st.Path {
 			case "pushBlob":
-				st.Reader = rapid.SampledFrom([]int{0, 0, 1, 2, 2, 3, 4, 5, 6, 7}).Draw(t, "reader")
+				st.Reader = rapid.SampledFrom([]int{0, 0, 1, 2, 2, 3, 4, 5, 6, 7, 8, 9}).Draw(t, "reader")
 			case "chunked":
 				for j := rapid.IntRange(0, 3).Draw(t, "nparts"); j > 0; j-- {
 					st.Parts = append(st.Parts, rapid.SampledFrom([]int{0, 1, 2, 100, 8191, 8192, 8193, 20000}).Draw(t, "part"))
